@@ -874,4 +874,39 @@ theorem truncIdx_spec {U : Uni} (S : SegLaws U) (s : List Char) (limit : Nat) :
       have := h2 hlt
       simpa using this
 
+/-! ### the output inside the text before truncation -/
+
+theorem getLast?_append_ne {α} (l g : List α) (h : g ≠ []) : (l ++ g).getLast? = g.getLast? := by
+  rw [List.getLast?_append]
+  cases hg : g.getLast? with
+  | none => exact absurd (List.getLast?_eq_none_iff.mp hg) h
+  | some a => rfl
+
+theorem flatten_getLast {l : List (List Char)} {g : List Char} (hl : l.getLast? = some g) (hg : g ≠ []) :
+    l.flatten.getLast? = g.getLast? := by
+  obtain ⟨ys, rfl⟩ := List.getLast?_eq_some_iff.mp hl
+  rw [List.flatten_append]
+  simp only [List.flatten_cons, List.flatten_nil, List.append_nil]
+  exact getLast?_append_ne _ _ hg
+
+theorem take_flatten_prefix (gs : List (List Char)) (k : Nat) : (gs.take k).flatten <+: gs.flatten := by
+  refine ⟨(gs.drop k).flatten, ?_⟩
+  rw [← List.flatten_append, List.take_append_drop]
+
+theorem bytes_take_ge {gs : List (List Char)} (hne : ∀ g ∈ gs, g ≠ []) {k : Nat} (hk : k ≤ gs.length) :
+    k ≤ bytes (gs.take k).flatten := by
+  induction gs generalizing k with
+  | nil => simp at hk; omega
+  | cons g r ih =>
+    cases k with
+    | zero => omega
+    | succ k =>
+      simp only [List.take_succ_cons, List.flatten_cons, bytes_append]
+      have h1 := bytes_pos (hne g (by simp))
+      have h2 := ih (fun x hx => hne x (by simp [hx])) (k := k) (by simpa using hk)
+      omega
+
+theorem take_one_flatten {g : List Char} {rest : List (List Char)} :
+    ((g :: rest).take 1).flatten = g := by simp
+
 end Mv.Text
